@@ -30,7 +30,7 @@ UNITS = {
     "stream": {"driver": "Stream", "harness": "ops_stream", "gens": "stream",
                "props": {"C03": ["CxVerif.Props.C03.Stream"], "C04": ["CxVerif.Props.C04.Stream"], "C16": ["CxVerif.Props.C16.ChaCha"]}},
     "ed25519": {"driver": "Ed25519", "harness": "ops_ed25519", "gens": "ed25519",
-                "props": {"C13": ["CxVerif.Props.C13.Ed25519", "CxVerif.Props.C13.Final"], "C14": ["CxVerif.Props.C14.Ed25519"], "C15": ["CxVerif.Props.C15.Ge", "CxVerif.Props.C15.GroupLaw", "CxVerif.Props.C15.Prime", "CxVerif.Props.C15.Final"]}},
+                "props": {"C13": ["CxVerif.Props.C13.Ed25519", "CxVerif.Props.C13.Final"], "C14": ["CxVerif.Props.C14.Ed25519", "CxVerif.Props.C14.VerifyFull", "CxVerif.Props.C14.Final"], "C15": ["CxVerif.Props.C15.Ge", "CxVerif.Props.C15.GroupLaw", "CxVerif.Props.C15.Prime", "CxVerif.Props.C15.Final"]}},
     "argon2": {"driver": "Argon2", "harness": "ops_argon2", "gens": "argon2", "props": {"C11": ["CxVerif.Props.C11.Argon2", "CxVerif.Props.C11.Argon2Full"]}},
     "aead": {"driver": "Aead", "harness": "ops_aead", "gens": "aead",
              "props": {"C06": ["CxVerif.Props.C06.Aead"], "C07": ["CxVerif.Props.C07.Aead"], "C20": ["CxVerif.Props.C20.Aead"]}},
